@@ -175,7 +175,7 @@ def main():
         muts = muts[:limit]
     muts = [(k,) + m for k, m in enumerate(muts)]
     print("mutants:", len(muts), flush=True)
-    out = os.path.join(VERIF, "notes", "mutgen.jsonl")
+    out = os.environ.get("MUTGEN_OUT") or os.path.join(VERIF, "notes", "mutgen.jsonl")
     with ThreadPoolExecutor(max_workers=j) as ex, open(out, "a") as f:
         for r in ex.map(run_mutant, muts):
             f.write(json.dumps(r) + "\n")
